@@ -4,8 +4,10 @@ set -e
 cd "$(dirname "$0")"
 export GOFLAGS=-mod=mod GOPROXY=off GOSUMDB=off GOTOOLCHAIN=local CGO_ENABLED=0
 mkdir -p .work evidence replays
-cp /repo/go.sum harness/go.sum
+R="${VERIF_REPO:-/repo}"
+if [ "$R" != "/repo" ]; then sed -i "s#=> .*#=> $R#" harness/go.mod; fi
+cp "$R/go.sum" harness/go.sum
 (cd harness && go build -tags verif -o hx .)
-./harness/hx consts -repo /repo -out lean/DDS/Generated/Consts.lean
+./harness/hx consts -repo "$R" -out lean/DDS/Generated/Consts.lean
 (cd lean && lake build)
 echo "setup ok"
